@@ -17,4 +17,11 @@ def run(ctx):
     ca.normal_pair(ctx)
     ctx.rule("R-LOSE-ORDER", "on every losing path the state leaves NORMAL before a frame is sent", floor=2)
     ca.lose_order(ctx)
+    # below the CA: the data link layers put the source address they were given into the identifier - directly, or (FD multi-PG
+    # buffers) after recovering it from the buffer key
+    from rules import transport as T, layout as LY
+    ctx.rule("R-HASH-INJ", "FD deferred multi-PG buffers: the source address recovered from the buffer key is the one that was keyed", floor=3)
+    ctx.rule("R-SINGLE-FRAME", "J1939-21 single frames carry the given source address in the identifier", floor=1)
+    T.hash_inj(ctx, T.Layer(ctx, fd=True))
+    LY.single_frame(ctx, T.Layer(ctx, fd=False))
     return "guard dominance, who-may-call and argument provenance of every send entry point of ControllerApplication"
